@@ -79,4 +79,63 @@ theorem monParse_iff (o : ParseObs) :
   | panicked => simp [monParse]
 
 end C11
+
+/-! ### size of a machine, in cells
+
+What a decoded `Machine` occupies, counted in cells, up to a constant factor per cell kind:
+one cell per `State` (the inline struct with its three optional fields and its 13 vector slots),
+one cell per present transition vector (a present but empty vector still counts 1), one cell per
+`Trans` entry, one cell per `Dist`.  Used by the "no amplification" theorems of `Props/C11.lean`;
+not part of the model. -/
+
+def optDistCount : Option Dist → Nat
+  | none => 0
+  | some _ => 1
+
+/-- number of `Dist` values inside an action -/
+def Action.distCount : Action → Nat
+  | .cancel _ => 0
+  | .sendPadding _ _ _ lim => 1 + optDistCount lim
+  | .blockOutgoing _ _ _ _ lim => 2 + optDistCount lim
+  | .updateTimer _ _ lim => 1 + optDistCount lim
+
+def optActionDistCount : Option Action → Nat
+  | none => 0
+  | some a => a.distCount
+
+def optCounterDistCount : Option Counter → Nat
+  | none => 0
+  | some c => optDistCount c.dist
+
+/-- transition entries of one event slot -/
+def slotEntries : Option (List Trans) → Nat
+  | none => 0
+  | some ts => ts.length
+
+/-- 1 for a present vector (empty or not), 0 for an absent one -/
+def slotVecs : Option (List Trans) → Nat
+  | none => 0
+  | some _ => 1
+
+def State.distCount (s : State) : Nat :=
+  optActionDistCount s.action + optCounterDistCount s.counterA + optCounterDistCount s.counterB
+
+def State.transCount (s : State) : Nat := (s.transitions.map slotEntries).sum
+
+def State.vecCount (s : State) : Nat := (s.transitions.map slotVecs).sum
+
+/-- total number of `Trans` entries, over all states and all event slots -/
+def Machine.transCount (m : Machine) : Nat := (m.states.map State.transCount).sum
+
+/-- number of present transition vectors, over all states and all event slots -/
+def Machine.vecCount (m : Machine) : Nat := (m.states.map State.vecCount).sum
+
+/-- number of `Dist` values (actions, action limits, counters) -/
+def Machine.distCount (m : Machine) : Nat := (m.states.map State.distCount).sum
+
+/-- states + present transition vectors + transition entries + distributions.  A present vector
+    with `k` entries contributes `k + 1`, so a present-but-empty vector counts 1. -/
+def Machine.cells (m : Machine) : Nat :=
+  m.states.length + m.vecCount + m.transCount + m.distCount
+
 end Mb
